@@ -81,6 +81,17 @@ Section C20.
     let B := INR n * (2 / PI * exp (- (PI * PI * kap * age / (md * md)))) in
     top - (bot - top) * B <= T <= bot + (bot - top) * B.
   Proof. exact (const_age_plate_envelope sp). Qed.
+
+  (** ridge-age plate model (exponent (A - sqrt(A^2 + i^2 pi^2)) * distance/md, A = v*md/(2 kappa)): the same with the first
+      term's exponent *)
+  Theorem C20_ridge_age_overshoot : forall n top bot d md kap v age,
+    top <= bot -> 0 < md -> 0 <= d <= md -> 0 <= (v * age) / md ->
+    let expo := fun fi : R => (((v * md) / (2 * kap)) - sqrt (((((v * v) * md) * md) / ((4 * kap) * kap)) + (((fi * fi) * PI) * PI)))
+                              * ((v * age) / md) in
+    let T := @plate_series R N n 1 (bot - top) d md expo (top + (bot - top) * (d / md)) in
+    let B := INR n * (2 / PI * exp ((((v * md) / (2 * kap)) - sqrt (((((v * v) * md) * md) / ((4 * kap) * kap)) + PI * PI)) * ((v * age) / md))) in
+    top - (bot - top) * B <= T <= bot + (bot - top) * B.
+  Proof. exact (ridge_age_plate_envelope sp). Qed.
 End C20.
 
 Print Assumptions C20_half_space_envelope.
@@ -93,3 +104,4 @@ Print Assumptions C20_mass_conserving_slab_top.
 Print Assumptions C20_slab_plate_model_boundaries.
 Print Assumptions C20_plate_series_overshoot.
 Print Assumptions C20_constant_age_overshoot.
+Print Assumptions C20_ridge_age_overshoot.
